@@ -25,8 +25,12 @@ def register(reg):
         exc_props={"ValueError": ("C17",)},
         # cut lemmas on the floor-division terms (each a small nonlinear fact, proved where the
         # term is computed and then used linearly by the return branches)
-        hints={"b_sm1_tm2": [("bounds", "0 <= b_sm1_tm2 and b_sm1_tm2 <= b_s_tm2")],
-               "b_sm1_tm1": [("bounds", "1 <= b_sm1_tm1 and b_sm1_tm1 <= b_s_tm1")],
+        # (the loop has found the repetition number t of GW2000: beta(s, t-1) < n <= beta(s, t); a search
+        # that gives up early still returns a step in range, so this is stated on its own)
+        hints={"b_sm1_tm2": [("repetition_number_found", "b_s_tm1 < n and n <= b_s_t"),
+                             ("bounds", "0 <= b_sm1_tm2 and b_sm1_tm2 <= b_s_tm2")],
+               "b_sm1_tm1": [("repetition_number_found", "b_s_tm1 < n and n <= b_s_t"),
+                             ("bounds", "1 <= b_sm1_tm1 and b_sm1_tm1 <= b_s_tm1")],
                "b_sm2_tm1": [("bounds", "0 <= b_sm2_tm1 and b_sm2_tm1 <= b_sm1_tm1")]},
         loops=[LoopSpec("b_s_tm1 >= n or n > b_s_t", [
             ("domain", "n >= 4 and 2 <= snapshots and snapshots <= n - 2"),
